@@ -1,4 +1,4 @@
-\* design check with entries: one include from the full core pool (576 entries) x 12 axis sets x 16 flag seeds
+\* design check with entries: one include from the full core pool (576 entries) x 12 axis sets x 8 flag seeds
 CONSTANTS
   NZ = 2
   AxisVs <- EntVs
@@ -8,7 +8,7 @@ CONSTANTS
   AxisSs <- EntSs2
   TriH2c = {"unset", "false"}
   TriTls = {"unset", "false"}
-  TriCerts = {"unset", "true"}
+  TriCerts = {"unset"}
   TriTrailers = {"unset"}
   TriHdh1 = {"unset", "true"}
   TriGet = {"unset"}
